@@ -116,7 +116,8 @@ def run_tagged(modname, tagged, seed, procs=None):
     if not tagged:
         return []
     procs = procs or min(16, len(tagged))
-    args = [(gi, (modname, fn, c, seed)) for gi, fn, c in tagged]
+    # a group may name a worker of another module as "module:function"
+    args = [(gi, ((fn.split(":")[0], fn.split(":")[1], c, seed) if ":" in fn else (modname, fn, c, seed))) for gi, fn, c in tagged]
     if procs == 1 or os.environ.get("VERIF_SERIAL"):
         return [_tagged_worker(a) for a in args]
     ctx = mp.get_context("forkserver")
